@@ -56,7 +56,7 @@ theorem md_core_imm (k : md_Kind) (w : Bool) (i : Insn) (hopc : i.opc.toNat = md
       subst hs'
       have hab : a = b := by simpa using hcs
       subst hab
-      exact ⟨0, σ, rfl, hrel, rfl, rfl, rfl, rfl, Or.inl ⟨hpc, hrip⟩⟩
+      exact ⟨0, σ, rfl, hrel, rfl, rfl, rfl, rfl, rfl, callersKept_refl _ _, Or.inl ⟨hpc, hrip⟩⟩
     · rw [md_shape_imm0 k w _ _ _ hk] at hcs
       have hs' : s' = { s with reg := s.reg.setIfInBounds i.dst.toNat 0#64 } := by
         by_cases hm : k = .mul
@@ -74,15 +74,15 @@ theorem md_core_imm (k : md_Kind) (w : Bool) (i : Insn) (hopc : i.opc.toNat = md
       subst hmb
       obtain ⟨h1, h2⟩ := md_fin_wr retAddr σ
         { ({ σ with flags := fl }.set (regOf i.dst.toNat) 0) with rip := c.codeBase + m } s i.dst.toNat 0#64 hd hrel rfl rfl
-      exact ⟨1, _, hrun, h1, h2, rfl, rfl, rfl, Or.inl ⟨hpc, rfl⟩⟩
+      exact ⟨1, _, hrun, h1, h2, rfl, rfl, rfl, rfl, callersKept_of_mem _ _ _ rfl, Or.inl ⟨hpc, rfl⟩⟩
   · have hnz : md_nz w (sx32 i.imm) := by rw [md_nz_sx32]; exact himm
     rw [md_shape_imm k w _ _ _ _ himm] at hcs
     rw [if_neg (fun h => h.2 hnz)] at hexec
     have hs' := (Outcome.next.inj hexec).symm
     subst hs'
-    obtain ⟨n1, σ', hst, h1, h2, hl, hm, h3⟩ := md_normal c tgt a b retAddr σ s i.dst.toNat hd k w _ (sx32 i.imm) hcs hrip hrel
+    obtain ⟨n1, σ', hst, h1, h2, hl, hm, hck, h3⟩ := md_normal c tgt a b retAddr σ s i.dst.toNat hd k w _ (sx32 i.imm) hcs hrip hrel
       (fun σ1 _ => md_step_loadImm32 c σ1 1 i.imm) (fun _ => hnz)
-    exact ⟨n1, σ', hst, h1, h2, hl, hm, rfl, Or.inl ⟨hpc, h3⟩⟩
+    exact ⟨n1, σ', hst, h1, h2, hl, hm, rfl, rfl, hck, Or.inl ⟨hpc, h3⟩⟩
 
 theorem md_cast_pc (pc : Nat) (spc : Nat) (h : spc = pc + 1) : ((spc : Nat) : Int) = (pc : Int) + 1 := by
   subst h; simp
@@ -92,19 +92,20 @@ theorem md_after_prefix (c : Cfg) (tgt : Tgt → Option Nat) (m b retAddr : Nat)
     (hd : dst < 11) (hs : src < 11) (k : md_Kind) (w : Bool)
     (hcs : checkSeq c.code tgt m ((md_block (regOf dst) k w (movRR (regOf src) 1)).map AI.i) = some b)
     (hrip : σ0.rip = c.codeBase + m) (hrel0 : Rel0 retAddr σ0 s) (htop0 : topBytes σ0 s = topBytes σ s)
+    (hck0 : CallersKept σ σ0 s) (hrsp0 : σ0.get 4 = σ.get 4)
     (hnz : k ≠ .mul → md_nz w (s.reg.getD src 0)) :
     ∃ n σ', stepsN c n σ0 = some σ' ∧
       Rel0 retAddr σ' { s with reg := s.reg.setIfInBounds dst (md_res k w (s.reg.getD dst 0) (s.reg.getD src 0)) } ∧
       topBytes σ' { s with reg := s.reg.setIfInBounds dst (md_res k w (s.reg.getD dst 0) (s.reg.getD src 0)) } = topBytes σ s ∧
-      σ'.log = σ0.log ∧ σ'.misaligned = σ0.misaligned ∧ σ'.rip = c.codeBase + b := by
+      σ'.log = σ0.log ∧ σ'.misaligned = σ0.misaligned ∧ CallersKept σ σ' s ∧ σ'.rip = c.codeBase + b := by
   obtain ⟨hS4, _, _, hS1⟩ := regOf_ne_special src hs
   have hX : ∀ σ1, (∀ r, r ≠ 4 → σ1.get r = σ0.get r) →
       md_Step c (movRR (regOf src) 1) σ1 (σ1.set 1 (s.reg.getD src 0)) := by
     intro σ1 hg
     have := md_step_movRR c σ1 (regOf src) 1
     rwa [hg _ hS4, hrel0.regs src hs] at this
-  obtain ⟨n1, σ', hst, h1, h2, hl, hm, h3⟩ := md_normal c tgt m b retAddr σ0 s dst hd k w _ (s.reg.getD src 0) hcs hrip hrel0 hX hnz
-  exact ⟨n1, σ', hst, h1, h2.trans htop0, hl, hm, h3⟩
+  obtain ⟨n1, σ', hst, h1, h2, hl, hm, hck, h3⟩ := md_normal c tgt m b retAddr σ0 s dst hd k w _ (s.reg.getD src 0) hcs hrip hrel0 hX hnz
+  exact ⟨n1, σ', hst, h1, h2.trans htop0, hl, hm, callersKept_trans σ σ0 σ' s hck0 hrsp0 hck, h3⟩
 
 /-- register forms -/
 theorem md_core_reg (k : md_Kind) (w : Bool) (i : Insn) (hopc : i.opc.toNat = md_code k w true) : ArmSim i := by
@@ -122,9 +123,9 @@ theorem md_core_reg (k : md_Kind) (w : Bool) (i : Insn) (hopc : i.opc.toNat = md
     rw [if_neg (by simp)] at hexec
     have hs' := (Outcome.next.inj hexec).symm
     subst hs'
-    obtain ⟨n1, σ', hst, h1, h2, hl, hm, h3⟩ := md_after_prefix c tgt a b retAddr σ σ s i.dst.toNat i.src.toNat hd hs .mul w
-      hcs hrip hrel rfl (by simp)
-    exact ⟨n1, σ', hst, h1, h2, hl, hm, rfl, Or.inl ⟨hpc, h3⟩⟩
+    obtain ⟨n1, σ', hst, h1, h2, hl, hm, hck, h3⟩ := md_after_prefix c tgt a b retAddr σ σ s i.dst.toNat i.src.toNat hd hs .mul w
+      hcs hrip hrel rfl (callersKept_refl σ s) rfl (by simp)
+    exact ⟨n1, σ', hst, h1, h2, hl, hm, rfl, rfl, hck, Or.inl ⟨hpc, h3⟩⟩
   | div =>
     rw [md_shape_reg_div] at hcs
     obtain ⟨σ0, v, n0, hst0, hmem0, hlog0, hmis0, hcase⟩ := md_prefix_div c tgt a b σ pc (.pc ((pc : Int) + 1)) w _ _ _ hS1
@@ -136,14 +137,15 @@ theorem md_core_reg (k : md_Kind) (w : Bool) (i : Insn) (hopc : i.opc.toNat = md
       subst hs'
       obtain ⟨h1, h2⟩ := md_fin_wr retAddr (σ.set 1 v) σ0 s i.dst.toNat 0#64 hd
         (rel0_scratch retAddr σ s 1 v (Or.inl rfl) hrel) hmem0 hreg0
-      exact ⟨n0, σ0, hst0, h1, h2, hlog0, hmis0, rfl, Or.inr ⟨l, by rw [md_cast_pc pc _ hpc]; exact htl, hrip0⟩⟩
+      exact ⟨n0, σ0, hst0, h1, h2, hlog0, hmis0, rfl, rfl, callersKept_of_mem _ _ _ hmem0, Or.inr ⟨l, by rw [md_cast_pc pc _ hpc]; exact htl, hrip0⟩⟩
     · rw [if_neg (fun h => h.2 hz)] at hexec
       have hs' := (Outcome.next.inj hexec).symm
       subst hs'
       obtain ⟨hrel0, htop0⟩ := md_fin_scratch retAddr σ σ0 s v hrel hmem0 hreg0
-      obtain ⟨n1, σ', hst, h1, h2, hl, hm, h3⟩ := md_after_prefix c tgt m b retAddr σ σ0 s i.dst.toNat i.src.toNat hd hs .div w
-        hcm hrip0 hrel0 htop0 (fun _ => hz)
-      exact ⟨n0 + n1, σ', stepsN_add c n0 n1 _ _ _ hst0 hst, h1, h2, hl.trans hlog0, hm.trans hmis0, rfl, Or.inl ⟨hpc, h3⟩⟩
+      have hrsp0 : σ0.get 4 = σ.get 4 := (get_congr _ _ 4 hreg0).trans (get_set_ne _ _ _ _ (by omega))
+      obtain ⟨n1, σ', hst, h1, h2, hl, hm, hck, h3⟩ := md_after_prefix c tgt m b retAddr σ σ0 s i.dst.toNat i.src.toNat hd hs .div w
+        hcm hrip0 hrel0 htop0 (callersKept_of_mem _ _ _ hmem0) hrsp0 (fun _ => hz)
+      exact ⟨n0 + n1, σ', stepsN_add c n0 n1 _ _ _ hst0 hst, h1, h2, hl.trans hlog0, hm.trans hmis0, rfl, rfl, hck, Or.inl ⟨hpc, h3⟩⟩
   | mod =>
     rw [md_shape_reg_mod] at hcs
     obtain ⟨σ0, v, hst0, hmem0, hreg0, hlog0, hmis0, hcase⟩ := md_prefix_mod c tgt a b σ pc (.pc ((pc : Int) + 1)) w _ _ hS1 hcs hrip hb
@@ -153,14 +155,15 @@ theorem md_core_reg (k : md_Kind) (w : Bool) (i : Insn) (hopc : i.opc.toNat = md
       have hs' := Outcome.next.inj hexec
       subst hs'
       obtain ⟨h1, h2⟩ := md_fin_scratch retAddr σ σ0 s v hrel hmem0 hreg0
-      exact ⟨3, σ0, hst0, h1, h2, hlog0, hmis0, rfl, Or.inr ⟨l, by rw [md_cast_pc pc _ hpc]; exact htl, hrip0⟩⟩
+      exact ⟨3, σ0, hst0, h1, h2, hlog0, hmis0, rfl, rfl, callersKept_of_mem _ _ _ hmem0, Or.inr ⟨l, by rw [md_cast_pc pc _ hpc]; exact htl, hrip0⟩⟩
     · rw [if_neg (fun h => h.2 hz)] at hexec
       have hs' := (Outcome.next.inj hexec).symm
       subst hs'
       obtain ⟨hrel0, htop0⟩ := md_fin_scratch retAddr σ σ0 s v hrel hmem0 hreg0
-      obtain ⟨n1, σ', hst, h1, h2, hl, hm, h3⟩ := md_after_prefix c tgt m b retAddr σ σ0 s i.dst.toNat i.src.toNat hd hs .mod w
-        hcm hrip0 hrel0 htop0 (fun _ => hz)
-      exact ⟨3 + n1, σ', stepsN_add c 3 n1 _ _ _ hst0 hst, h1, h2, hl.trans hlog0, hm.trans hmis0, rfl, Or.inl ⟨hpc, h3⟩⟩
+      have hrsp0 : σ0.get 4 = σ.get 4 := (get_congr _ _ 4 hreg0).trans (get_set_ne _ _ _ _ (by omega))
+      obtain ⟨n1, σ', hst, h1, h2, hl, hm, hck, h3⟩ := md_after_prefix c tgt m b retAddr σ σ0 s i.dst.toNat i.src.toNat hd hs .mod w
+        hcm hrip0 hrel0 htop0 (callersKept_of_mem _ _ _ hmem0) hrsp0 (fun _ => hz)
+      exact ⟨3 + n1, σ', stepsN_add c 3 n1 _ _ _ hst0 hst, h1, h2, hl.trans hlog0, hm.trans hmis0, rfl, rfl, hck, Or.inl ⟨hpc, h3⟩⟩
 
 theorem armSim_muldiv (i : Insn) (h : i.opc.toNat ∈ mulDivOpcodes) : ArmSim i := by
   simp only [mulDivOpcodes, List.mem_cons, List.not_mem_nil, or_false] at h
